@@ -2,7 +2,7 @@
 bit level); tags decode to the variant the writer meant; every compress path (incl. raw fallback)
 has its inverse on the decompress side (R-SYM)."""
 from vlib import fixtures
-from rules import pair, sym, tagmap, tagkind
+from rules import pair, sym, tagmap, tagkind, scratch
 from vlib.mir import Fn, op_local
 from vlib.run import Broken
 
@@ -31,7 +31,7 @@ def arm_pair(ctx, fx, w, r, enums, label, rule="R-PAIR"):
 
 def run(ctx):
     fx = ctx.facts("default")
-    fixtures.run(ctx, ['pair', 'tagkind'])
+    fixtures.run(ctx, ['pair', 'tagkind', 'scratch'])
     ev = 0
     w, r = need(fx, PZ + "apply_compression_strategy"), need(fx, PZ + "decompress_match")
     ctx.analysed_fns.update([w.id, r.id])
@@ -106,6 +106,14 @@ def run(ctx):
     # tagged frames of the real-time front end: the tag determines what was done to the payload
     tagkind.run(ctx, fx, "src/compression/realtime.rs")
     ctx.floor("R-TAGKIND.sites", 3)
+    # scratch buffers that live in the compressor object are emptied before every use (a second payload, a second block)
+    structs = sorted({(fx.raw(f)['file'], (fx.raw(f)['self_ty'] or '').split('<')[0]) for f in fx.fn_ids()
+                      if fx.raw(f)['file'].startswith('src/compression/') and fx.raw(f)['self_ty'] and '::tests::' not in f})
+    for file, st in structs:
+        scratch.run(ctx, fx, file, st)
+    ctx.instance("R-SCRATCH.structs", len(structs))
+    ctx.floor("R-SCRATCH.structs", 40)
+    ctx.floor("R-SCRATCH.producers", 1)
     ctx.floor("R-SYM.pairs", 8)
     return dict(
         level_note="decides layout/tag agreement per match type and store/load path symmetry; match finding, the suffix-array "
@@ -116,6 +124,6 @@ def run(ctx):
                     "through a transforming call) from the payload to the result of compress must be mirrored by decompress. R-TAGKIND: over "
                     "all `tagged(tag, payload)` sites of realtime.rs the relation (tag constant, payload kind) is one-to-one, with "
                     "framing helpers expanded into their callers.",
-        trusted_base=["rustc nightly MIR", "zfacts", "rules/pair.py", "rules/sym.py", "rules/tagmap.py", "rules/tagkind.py"],
-        rule_text="obligation = (writer arm, reader arm) | tag arm | (compress, decompress) pair",
+        trusted_base=["rustc nightly MIR", "zfacts", "rules/pair.py", "rules/sym.py", "rules/tagmap.py", "rules/tagkind.py", "rules/scratch.py"],
+        rule_text="obligation = (writer arm, reader arm) | tag arm | (compress, decompress) pair | (scratch producer, field)",
     )
